@@ -230,6 +230,62 @@ fn params_check(c: &ParamsCase) -> CaseResult {
     Ok(Verdict::of(k2 < c.k, format!("k={}->{}", c.k, k2)))
 }
 
+/// Reloaded parameter sets must behave like the originals: an honest proof made with reloaded
+/// prover parameters verifies, and reloaded verifier parameters (read from their own encoding,
+/// or derived from reloaded prover parameters) accept exactly what the original ones accept.
+fn params_behaviour(c: &Case) -> CaseResult {
+    use midnight_proofs::{plonk::prepare, poly::commitment::Guard, transcript::{CircuitTranscript, Transcript}};
+    let mut kn = c.knobs.clone();
+    kn.k_extra = 0;
+    kn.ops.truncate(3);
+    let spec = expand(&kn);
+    if spec.k > 7 {
+        return Ok(Verdict::trivial("circuit-too-large"));
+    }
+    let plan = build_plan(&spec, c.wseed);
+    if pv::mock(&spec, &plan).is_err() {
+        return Ok(Verdict::trivial("harness:plan-not-satisfying"));
+    }
+    let (pk, vk) = pv::keygen(&spec).map_err(|e| Failure::new("keygen-fails", e))?;
+    let st = pv::statement(&vk, &spec, &[plan.instances.clone()], 0);
+    let mut t = CircuitTranscript::<Blake>::init();
+    pv::prove(&pk, &spec, &[plan.clone()], 0, c.wseed ^ 0x17, &mut t).map_err(|e| Failure::new("create_proof-fails", e))?;
+    let proof = t.finalize();
+    let mut bad = proof.clone();
+    let n = bad.len();
+    bad[n - 20] ^= 0x04;
+    let params = pv::params(spec.k);
+    let vp = params.verifier_params();
+    let verdict = |vpx: &ParamsVerifierKZG<Bls12>, proof: &[u8]| -> Result<bool, String> {
+        vpcore::catch(|| {
+            let mut t = CircuitTranscript::<Blake>::init_from_bytes(proof);
+            let com: Vec<&[midnight_curves::G1Projective]> = st.committed.iter().map(|v| &v[..]).collect();
+            let plain: Vec<Vec<&[F]>> = st.plain.iter().map(|v| v.iter().map(|c| &c[..]).collect()).collect();
+            let plain2: Vec<&[&[F]]> = plain.iter().map(|v| &v[..]).collect();
+            match prepare::<F, CS, _>(&vk, &com, &plain2, &mut t) {
+                Err(_) => false,
+                Ok(g) => t.assert_empty().is_ok() && g.verify(vpx).is_ok(),
+            }
+        })
+    };
+    ensure!(verdict(&vp, &proof) == Ok(true), "harness:honest-proof-rejected", "spec={spec:?}");
+    ensure!(verdict(&vp, &bad) == Ok(false), "harness:corrupted-proof-accepted", "spec={spec:?}");
+    for (f, name) in FORMATS {
+        let mut vb = vec![];
+        vp.write(&mut vb, f).unwrap();
+        let vp2 = ParamsVerifierKZG::<Bls12>::read(&mut &vb[..], f).map_err(|e| Failure::new(format!("vparams-read-fails:{name}"), format!("{e}")))?;
+        let re = ParamsKZG::<Bls12>::read_custom(&mut &params_bytes(&params, f)[..], f).map_err(|e| Failure::new(format!("params-read-fails:{name}"), format!("{e}")))?;
+        let vp3 = re.verifier_params();
+        for (which, vpx) in [("read", &vp2), ("of-reloaded-prover-params", &vp3)] {
+            let a = verdict(vpx, &proof);
+            ensure!(a == Ok(true), format!("vparams-reloaded:{which}:{name}:rejects-honest-proof"), "verifier parameters {which} ({name}) give {a:?} on a proof the original parameters accept; spec={spec:?}");
+            let b = verdict(vpx, &bad);
+            ensure!(b == Ok(false), format!("vparams-reloaded:{which}:{name}:accepts-corrupted-proof"), "{b:?}");
+        }
+    }
+    Ok(Verdict::nontrivial(format!("k={}", spec.k)))
+}
+
 fn main() {
     vpcore::main("C17", "exploration", (1800, 10800), |p| {
         p.assume("thread schedules are explored only through rayon pool sizes {1,2,3,8,16}");
@@ -270,6 +326,15 @@ fn main() {
             8,
             false,
             params_check,
+        );
+        p.sub_cfg(
+            "params.behaviour",
+            "small E1 circuits: verifier parameters written and read back in each format, and verifier parameters of prover parameters read back in each format, accept the honest proof and refuse a corrupted one exactly like the original parameters; every case non-trivial",
+            p.tier.pick(24, 300),
+            8,
+            8,
+            || strategy(4),
+            params_behaviour,
         );
     });
 }
